@@ -1001,8 +1001,8 @@ class XsdList(XsdSimpleType):
                          strict: bool = False) -> AtomicValueType:
         return self.item_type.get_atomic_value(value, namespaces=namespaces, strict=strict)
 
-    def raw_decode(self, obj: str | bytes, validation: str, context: ValidationContext) \
-            -> list[AtomicValueType | None]:
+    def raw_decode(self, obj: str | bytes, validation: str, context: ValidationContext,
+                   convert: bool = True) -> list[AtomicValueType | None]:
         items = []
         for chunk in filter(None, self._REGEX_SPACES.split(self.normalize(obj))):
             result = self.item_type.raw_decode(chunk, validation, context)
@@ -1011,10 +1011,27 @@ class XsdList(XsdSimpleType):
                 reason = _("unexpected nested list item {!r}").format(obj)
                 context.validation_error(validation, self, reason, obj)
                 items.extend(result)
-                continue
-            elif not isinstance(context, DecodeContext):
-                pass
-            elif isinstance(result, context.keep_datatypes) or result is None:
+            else:
+                items.append(result)
+
+        if convert and isinstance(context, DecodeContext):
+            return self.convert_items(obj, items, context)
+        return items
+
+    def convert_items(self, obj: str | bytes, items: list[AtomicValueType | None],
+                      context: DecodeContext) -> list[AtomicValueType | None]:
+        """
+        Converts the decoded items of a list to the datatypes requested by the decode
+        context. Has to be applied after the validation of the facets of the list, that
+        are checked against XSD values.
+        """
+        chunks = [x for x in self._REGEX_SPACES.split(self.normalize(obj)) if x]
+        if len(chunks) != len(items):
+            return items  # a nested list (not allowed): items are already converted
+
+        converted_items = []
+        for chunk, result in zip(chunks, items):
+            if isinstance(result, context.keep_datatypes) or result is None:
                 pass
             elif isinstance(result, str):
                 if result[:1] == '{' and self.is_qname():
@@ -1026,10 +1043,9 @@ class XsdList(XsdSimpleType):
                 result = chunk.strip()
             else:
                 result = str(result)
+            converted_items.append(result)
 
-            items.append(result)
-        else:
-            return items
+        return converted_items
 
     def raw_encode(self, obj: Any, validation: str, context: EncodeContext) -> str | None:
         if not hasattr(obj, '__iter__') or isinstance(obj, (str, bytes)):
@@ -1464,7 +1480,7 @@ class XsdAtomicRestriction(XsdAtomic):
             yield from self.base_type.iter_components(xsd_classes)
 
     def raw_decode(self, obj: str | bytes, validation: str,
-                   context: ValidationContext) -> DecodedValueType:
+                   context: ValidationContext, convert: bool = True) -> DecodedValueType:
 
         if isinstance(obj, (str, bytes)):
             obj = self.normalize(obj)
@@ -1491,13 +1507,26 @@ class XsdAtomicRestriction(XsdAtomic):
                     "with simple or mixed content required")
             raise XMLSchemaValueError(msg % self.base_type)
 
-        result = base_type.raw_decode(obj, validation, context)
+        list_type = self.primitive_type
+        if isinstance(list_type, XsdList) and isinstance(context, DecodeContext) \
+                and isinstance(base_type, (XsdList, XsdAtomicRestriction)):
+            # The facets of a list have to be checked on the XSD values of the items,
+            # that are converted to the requested datatypes by the outermost restriction.
+            result = base_type.raw_decode(obj, validation, context, convert=False)
+        else:
+            convert = False
+            result = base_type.raw_decode(obj, validation, context)
+
         if result is not None:
             for validator in self.validators:
                 try:
                     validator(result)
                 except XMLSchemaValidationError as err:
                     context.validation_error(validation, self, err)
+
+            if convert and isinstance(result, list) and isinstance(list_type, XsdList) \
+                    and isinstance(context, DecodeContext):
+                result = list_type.convert_items(obj, result, context)
 
         return result
 
